@@ -31,7 +31,7 @@ import vcfile  # noqa: E402
 
 REPO = os.environ.get("VP_REPO", "/repo")
 SAFETY = ["--bounds-check", "--pointer-check", "--pointer-overflow-check",
-          "--signed-overflow-check", "--div-by-zero-check", "--object-bits", "10"]
+          "--signed-overflow-check", "--div-by-zero-check", "--sat-solver", "cadical"]
 MEM_BYTES = int(os.environ.get("VP_MEM_GB", "12")) * (1 << 30)
 CFG_OPTS = {"nr": [], "r": ["-R"], "c99": ["--emit=c99"]}
 CFG_TAGS = {"nr": {"nr", "cpp"}, "r": {"r", "cpp", "reent"}, "c99": {"c99", "reent"}}
@@ -764,7 +764,7 @@ def native_replay(r, fobl, trace, scratch):
 
 
 TRUSTED = [
-    "cbmc 6.11.0 / goto-cc / goto-instrument --dfcc (contract instrumentation) and its SAT back end (minisat2)",
+    "cbmc 6.11.0 / goto-cc / goto-instrument --dfcc (contract instrumentation) and its SAT back end (CaDiCaL)",
     "CBMC's built-in models of malloc/realloc/free/memset/memcpy/strlen",
     "gcc preprocessor as used by goto-cc; the rebuilt flex and m4 that emit the scanners under proof",
     "vsplice: insertion-only splicing of contract clauses (identity-checked each run)",
@@ -795,7 +795,7 @@ def write_evidence(p, tier, seed, results, violations, known_hits, undecided, wa
                            "[--replace-call-with-contract <g>] --apply-loop-contracts; cbmc " + " ".join(SAFETY) +
                            " --unwind 8 --unwinding-assertions (per unit commands below)",
             "trusted_base": TRUSTED,
-            "backend": "cbmc 6.11.0, propositional back end (MiniSat 2.2.1); no quantifiers in any contract",
+            "backend": "cbmc 6.11.0, propositional back end (CaDiCaL, --sat-solver cadical); no quantifiers in any contract",
             "units_under_contract": [
                 {"unit": r["uid"], "function": r["enforce"], "origin": r.get("info", {}).get("origin"),
                  "source_sha256_16": r.get("info", {}).get("sha256"), "status": r["status"],
